@@ -84,6 +84,8 @@ def run_variant(variant, prop, tier, seed, total, run_dir, nshards, cases, timeo
     v = VARIANTS[variant]
     env = dict(os.environ)
     env.update(v["run_env"])
+    # directed cases that kill the process on purpose (known findings) stay with the native run
+    env["TSGMON_VARIANT"] = variant
     procs = []
     for i in range(nshards):
         out = os.path.join(run_dir, "%s_shard%d.json" % (variant, i))
@@ -131,7 +133,7 @@ def run_memcheck(prop, tier, seed, total, run_dir, binary, cases, timeout=3600):
            "--shard", "0", "--nshards", "1", "--out", out, "--cases", str(cases), "--case-cpu", "100000",
            "--replays", os.path.join(VERIF, "replays")]
     try:
-        p = subprocess.run(cmd, stdout=subprocess.DEVNULL, stderr=subprocess.DEVNULL, timeout=timeout)
+        p = subprocess.run(cmd, stdout=subprocess.DEVNULL, stderr=subprocess.DEVNULL, timeout=timeout, env=dict(os.environ, TSGMON_VARIANT="memcheck"))
         rc = p.returncode
     except subprocess.TimeoutExpired:
         total["inconclusive"]["memcheck: wall clock limit"] = 1
